@@ -37,9 +37,9 @@ func checkRequireJSON(req *protocol.Request, tagInfo TagInfo) bool {
 		return false
 	}
 	path := splitJSONName(tagInfo.JSONName)
-	if !jsonKeyExists(req.Body(), path) {
+	if !jsonKeyExists(req.Body(), path, tagInfo.JSONExact) {
 		// There should be a superior if it is empty, it will report 'true' for required
-		if len(path) > 1 && !jsonKeyExists(req.Body(), path[:len(path)-1]) {
+		if len(path) > 1 && !jsonKeyExists(req.Body(), path[:len(path)-1], false) {
 			return true
 		}
 		return false
@@ -51,19 +51,20 @@ func checkRequireJSON(req *protocol.Request, tagInfo TagInfo) bool {
 // that is spelled exactly like the name, or else one that equals it ignoring case
 // (the rule of encoding/json). The names are compared as they are, not read as a
 // gjson path.
-func jsonKeyExists(body []byte, path []string) bool {
+func jsonKeyExists(body []byte, path []string, exactLast bool) bool {
 	cur := gjson.ParseBytes(body)
-	for _, name := range path {
+	for i, name := range path {
 		if !cur.IsObject() {
 			return false
 		}
+		exact := exactLast && i == len(path)-1
 		var next gjson.Result
 		cur.ForEach(func(key, value gjson.Result) bool {
 			if key.String() == name {
 				next = value
 				return false
 			}
-			if !next.Exists() && strings.EqualFold(key.String(), name) {
+			if !exact && !next.Exists() && strings.EqualFold(key.String(), name) {
 				next = value
 			}
 			return true
@@ -82,5 +83,5 @@ func keyExist(req *protocol.Request, tagInfo TagInfo) bool {
 	if !strings.EqualFold(utils.FilterContentType(ct), consts.MIMEApplicationJSON) {
 		return false
 	}
-	return jsonKeyExists(req.Body(), splitJSONName(tagInfo.JSONName))
+	return jsonKeyExists(req.Body(), splitJSONName(tagInfo.JSONName), tagInfo.JSONExact)
 }
